@@ -4,6 +4,15 @@ transfer paths (push = handle_sync_task, scan = the scan future, pull = RestoreD
 extracted model on the same PTTL / DUMP replies.  Monitor: the property itself evaluated on what the implementation sent."""
 import vlib, re
 
+MANIFEST = {
+  'text': 'Theorems C19_persistent, C19_positive (all n in [0,2^63): RESTORE ttl parses as 0 < t <= max 1 n), C19_not_found_skipped, C19_paths about Model/Ttl.v, '
+          'which mirrors pttl_to_restore_expire_time and the reply classification of the scan/push and pull paths; the model is tied to the code by running '
+          'the real function and the three real transfer paths on the same PTTL/DUMP replies as the extracted model, and the property monitor is evaluated on what the real code sent.',
+  'note': 'Coq kernel; closed under the global context; extraction (ExtrOcamlBasic) + OCaml driver; harness stand-ins for Redis; Redis RESTORE/PTTL semantics assumed. '
+          'Partial: key expiry in real time during a migration is outside the model.',
+  'technique': 'Coq proof over a hand-written model + differential correspondence check against the real code',
+ }
+
 TRUSTED = ['Coq 8.16.1 kernel (coqc; coqchk in the thorough tier); no axioms (Print Assumptions: closed)',
            'extraction with ExtrOcamlBasic only + ocaml/vio.ml, d_ttl.ml, driver.ml',
            'harness/src/ttl.rs: fake RedisClient / CmdTaskSender stand-ins answering PTTL, DUMP, EXISTS, SCAN, RESTORE, DEL',
@@ -116,7 +125,7 @@ def pin_sites():
 
 
 def run(chk):
-    ok = vlib.standard_proof_phase(chk, TRUSTED)
+    ok = vlib.standard_proof_phase(chk, TRUSTED, 'ttl')
     chk.cov['rule'] = ('cases = PTTL payloads (boundary set + seeded random decimals/garbage) through the real function, and '
                        '(PTTL reply, DUMP reply) pairs through the three real paths; non-trivial = distinct case whose PTTL payload is a '
                        'canonical decimal (the monitor constrains the outcome) or whose reply shapes select a distinct branch')
@@ -160,7 +169,7 @@ def replay(data):
     c = data.get('case') or (data.get('first') or {}).get('case')
     if not c:
         print(data); return 0
-    chk.build_impl()
+    chk.build_impl('ttl')
     _, impl = chk.run_impl('ttl', [c]); _, model = chk.run_model('ttl', [c])
     print('case :', c); print('impl :', impl); print('model:', model); print('monitor:', monitor(c, impl[0]) if impl else None)
     return 1 if (impl and monitor(c, impl[0])) else 0
